@@ -1,0 +1,16 @@
+// +build verif
+
+package consensus
+
+import "github.com/bbva/qed/crypto/hashing"
+
+// VerifHasherF, when set by the verification harness, replaces the hasher of every
+// RaftNode created afterwards (symbolic hashing for trace validation).
+var VerifHasherF func() hashing.Hasher
+
+func verifHasherF(f func() hashing.Hasher) func() hashing.Hasher {
+	if VerifHasherF != nil {
+		return VerifHasherF
+	}
+	return f
+}
